@@ -220,6 +220,20 @@ class BlockEval:
                 name = ast.unparse(e)
                 if isinstance(st.exc, ast.Name) and st.exc.id in env and isinstance(env[st.exc.id], str):
                     name = env[st.exc.id]
+                elif not (isinstance(e, ast.Name) and e.id in __import__("builtins").__dict__ and e.id not in env):
+                    # `raise helper(...)` / `raise exc_object`: what is raised is the VALUE of the expression
+                    try:
+                        v = self._fold(st.exc, env)
+                        if isinstance(v, BaseException):
+                            name = type(v).__name__
+                        elif isinstance(v, type) and issubclass(v, BaseException):
+                            name = v.__name__
+                        elif isinstance(v, str) and v:
+                            name = v
+                        elif hasattr(v, "cls") and hasattr(v, "fields"):
+                            name = v.cls
+                    except Exception:
+                        pass
             else:
                 name = env.get("__exc__")
             outs.append(Outcome("raise", name, env, assume, eff))
